@@ -1,10 +1,11 @@
 """C17 - walking and printing a chain reproduce the game."""
-from . import chainrules
+from . import chainrules, witness
 
 
 def run(ctx):
     facts = ctx.facts("dev")
     ctx.decided += [
+        'W3 the borrow checker rejects mutating a chain while a walker over it is alive (E4 witness), so a walker never observes a changed move list',
         "W1 Walker::set_board_pos has a backward and a forward *loop* guarded by board_pos > / < target (so it exits only with board_pos == "
         "target); backward = decrement then unmake(stack[board_pos]), forward = make(stack[board_pos]) then increment",
         "W2 next/prev pass set_board_pos exactly the index of the move they return, after updating pos, and return the walker's own board; "
@@ -18,3 +19,5 @@ def run(ctx):
     chainrules.walker_sync_rule(ctx, facts, "W1")
     chainrules.walker_step_rule(ctx, facts, "W2")
     chainrules.status_rule(ctx, facts, "W4")
+    witness.cf_rule(ctx, 'W3', ('cf/C17/',),
+                    'a chain cannot be mutated while a Walker borrows it (compile-fail witness E0502 with compiling twin)')
